@@ -392,6 +392,32 @@ theorem inv_of_equiv {m m' : Mem} (hI : Inv m) (h : MEquiv m m') (n1 : m'.spo.No
       ctxT_iff := fun k t => (hI.ctxT_iff k t).trans ⟨fun h' => ⟨(hs t).1 h'.1, h'.2⟩, fun h' => ⟨(hs t).2 h'.1, h'.2⟩⟩
       ctx_ok := fun t ht => hI.ctx_ok t ((hs t).2 ht) }
 
+/-! ### the new graph of a binary operator (round h) -/
+
+theorem foldl_add_equiv (r : Nat) : ∀ (ts : List Triple) (m : Mem) (n : NMem), NWF n → MEquiv m n.toMem →
+    MEquiv (ts.foldl (fun m t => m.add t r) m) (ts.foldl (fun n t => n.add t r) n).toMem ∧
+      NWF (ts.foldl (fun n t => n.add t r) n) := by
+  intro ts
+  induction ts with
+  | nil => intro m n h e; exact ⟨e, h⟩
+  | cons t rest ih =>
+    intro m n h e
+    obtain ⟨e1, h1⟩ := add_equiv h t r
+    exact ih _ _ h1 ((add_congr e t r).trans e1)
+
+theorem ofList_equiv (r : Nat) (ts : List Triple) :
+    MEquiv (Mem.ofList r ts) (NMem.ofList r ts).toMem ∧ NWF (NMem.ofList r ts) :=
+  foldl_add_equiv r ts Mem.init NMem.init nwf_init (MEquiv.refl _)
+
+theorem graph_of_equiv {m : Mem} {n : NMem} (e : MEquiv m n.toMem) (g : Nat) : n.graph g = m.graph g := by
+  show ctxTget n.cx (some g) = ctxTget m (some g)
+  have : m.ctxT = n.cx.ctxT := e.ctxT
+  simp only [ctxTget, this]
+
+theorem nXor_eq (xs : List Triple) (inA : Triple → Bool) (ys : List Triple) (inB : Triple → Bool) (r : Nat) :
+    nXor xs inA ys inB r = NMem.ofList r ((gDiff xs inB r).graph r ++ (gDiff ys inA r).graph r) := by
+  simp only [nXor, nUnion, nDiff, gDiff, graph_of_equiv (ofList_equiv r _).1]
+
 theorem InG_of_equiv {m m' : Mem} (h : MEquiv m m') (t : Triple) (g : Nat) : InG m t g ↔ InG m' t g := by
   obtain ⟨s1, p1, o1, tc1, d1, ct1, al1, er1⟩ := m
   obtain ⟨s2, p2, o2, tc2, d2, ct2, al2, er2⟩ := m'
